@@ -78,6 +78,9 @@ func OpenScope(p *Scope) *Scope {
 	}
 }
 
+// maxNesting is the deepest nesting of statements the parser accepts.
+const maxNesting = 10000
+
 // Tree is the representation of a single parsed template.
 type Tree struct {
 	Root      Node // top-level root of the tree.
@@ -87,6 +90,7 @@ type Tree struct {
 	lex       *lexer
 	token     [3]item // three-token lookahead for parser.
 	peekCount int
+	depth     int // current nesting depth of the statement being parsed
 
 	argInterner    *ArgInterner
 	stringInterner *StringInterner
@@ -301,6 +305,7 @@ func (t *Tree) recover(errp *error) {
 func (t *Tree) startParse(lex *lexer) {
 	t.Root = nil
 	t.lex = lex
+	t.depth = 0
 	// Tokens looked ahead by an earlier (failed) parse belong to its text
 	t.peekCount = 0
 }
@@ -348,6 +353,14 @@ func (t *Tree) parse() {
 //|	identifier '{' stmtStar '}' //special case for in and out
 func (t *Tree) stmt(ctx string, s *Scope) Node {
 	var arg string
+	// The parser recurses once per level of nesting: bound it, a text of a
+	// few megabytes of "a{a{a{..." must not exhaust the stack (which cannot
+	// be recovered from).
+	t.depth++
+	defer func() { t.depth-- }()
+	if t.depth > maxNesting {
+		t.errorf("statements nested more than %d levels deep", maxNesting)
+	}
 	id := t.expect(itemString, ctx)
 	i := t.peekNonSpace()
 	switch i.typ {
